@@ -354,6 +354,17 @@ pub fn drive(args: &[String], hashset: bool) {
         }
         let cfg = if hashset { json!({"hasher": bh.to_json(), "keys": keys}) } else { json!({"m": m, "k": k, "hasher": bh.to_json(), "keys": keys}) };
         let mut steps: Vec<Value> = vec![];
+        // one scenario in three opens with the motif "content arrives by union only" (see cms.rs)
+        if sci % 3 == 1 {
+            steps.push(json!({"obj": "b", "op": {"name":"ins","key": 0}}));
+            steps.push(json!({"obj": "b", "op": {"name":"ins","key": 1}}));
+            steps.push(json!({"obj": "a", "other": "b", "op": {"name":"union"}}));
+            steps.push(json!({"obj": "a", "op": {"name":"clear"}}));
+            steps.push(json!({"obj": "a", "op": {"name":"ins","key": 2}}));
+            steps.push(json!({"obj": "a", "other": "b", "op": {"name":"union"}}));
+            steps.push(json!({"obj": "a", "op": {"name":"clear"}}));
+            steps.push(json!({"obj": "a", "other": "b", "op": {"name":"union"}}));
+        }
         for _ in 0..(15 + rng.below(50)) {
             let x = rng.below(100);
             let obj = ["a", "b", "c"][rng.below(3) as usize];
